@@ -86,8 +86,8 @@ def _sym_refusal(world, name, exc, ok, where):
 worlds.SymWorld.refusal = _sym_refusal
 
 
-def run_concrete(harness, shape, interp, params, kind):
-    cw = worlds.ConcreteWorld(shape, interp, kind)
+def run_concrete(harness, shape, interp, params, kind, backend=None):
+    cw = worlds.ConcreteWorld(shape, interp, kind, backend=backend)
     ctx = Ctx(cw, params)
     try:
         harness(ctx)
@@ -168,3 +168,35 @@ def verify(harness, shape, params=None, kind='automaton', seed=0,
         raise
     stats['wall_s'] = round(time.time() - t0, 3)
     return dict(records=records, stats=stats, functions=functions)
+
+
+def sweep(harness, shape, params=None, kind='automaton', seed=0, n=20,
+          backend=None):
+    """BOUNDED: run the contract harness on the REAL dd manager (`backend`:
+    None = the default one, i.e. dd.cudd when installed; 'autoref') with `n`
+    seeded random interpretations of its input predicates, evaluating the
+    postconditions on the unmodified real code.  Covers back-end specific
+    branches that the abstract manager cannot take."""
+    params = dict(params or {})
+
+    def run():
+        fails = list()
+        checked = 0
+        for i in range(n):
+            interp = worlds.interp_random(seed * 7919 + i)
+            try:
+                cw = run_concrete(harness, shape, interp, params, kind, backend)
+            except Exception as e:
+                fails.append(dict(name='contract harness runs on the real manager',
+                                  error=repr(e)[:300]))
+                continue
+            checked += len(cw.checked)
+            for f in cw.failed[:2]:
+                f = dict(f)
+                f['inputs'] = cw.inputs_concrete
+                fails.append(f)
+        return dict(records=[], stats=dict(), functions=dict(), bounded=dict(
+            evaluations=n, postconditions_evaluated=checked,
+            backend=backend or 'default (dd.cudd if installed)',
+            failures=fails[:6]))
+    return run
